@@ -27,6 +27,9 @@ def theorem_side(prop, tier="quick"):
     info["print_assumptions"] = pa
     if bad or missing:
         return False, info, "assumptions not closed: %s missing: %s" % (bad, missing)
+    okp, msg = pinned_statements_ok(prop.THEOREMS)
+    if not okp:
+        return False, info, msg
     info["obligations"] = count_qed(prop.PROOF_FILES)
     info["theorems"] = prop.THEOREMS
     if tier == "thorough":
